@@ -132,7 +132,7 @@ CLAIMS = [
                 "of those it accepts. Props/C01Sync.lean: 27 theorems (decide) that EXECUTE the synchronisation skeletons regenerated from the source text on all small inputs (T-E; robust against loop-form and naming changes). "
                 "K3(ii): every sampled execution of the real table is replayed hold by hold (commit order) as a schedule of Model/Conc sections with the parameters the "
                 "code used (guarded hooks report the run_cuckoo snapshot, the hop records, the fast_double request); every answer and the final FULL-STATE digest must "
-                "coincide (6,864 executions / 564,531 sections per quick run). NOT PROVED about the C++ text: that the code of one hold computes the section function and "
+                "coincide (7,392 executions / 567,699 sections per quick run). NOT PROVED about the C++ text: that the code of one hold computes the section function and "
                 "stays within its stripes - this is what K3(ii) and the lockset monitor check on every run (model side: Props/C03Frame.lean, C03Comm.lean); helper threads are not part of Conc; "
                 "locked_table sections are atomic steps in Props/C06Conc.lean.",
         "design_ref": "DESIGN.md 6/C01, 12",
